@@ -1730,14 +1730,26 @@ std::string Generator::GeneratorImpl::generateEquationCode(const AnalyserEquatio
 
         // Generate any dependency that this equation may have.
 
+        // Note: an NLA system is computed as a whole (one root finding call), so
+        //       the dependencies of the NLA siblings of the equation must be
+        //       generated too.
+
         if (!isSomeConstant(equation, includeComputedConstants)) {
-            for (const auto &dependency : equation->dependencies()) {
-                if ((dependency->type() != AnalyserEquation::Type::ODE)
-                    && !isSomeConstant(dependency, includeComputedConstants)
-                    && (equationsForDependencies.empty()
-                        || isToBeComputedAgain(dependency)
-                        || (std::find(equationsForDependencies.begin(), equationsForDependencies.end(), dependency) != equationsForDependencies.end()))) {
-                    res += generateEquationCode(dependency, remainingEquations, equationsForDependencies, includeComputedConstants);
+            std::vector<AnalyserEquationPtr> systemEquations = {equation};
+
+            for (const auto &nlaSibling : equation->nlaSiblings()) {
+                systemEquations.push_back(nlaSibling);
+            }
+
+            for (const auto &systemEquation : systemEquations) {
+                for (const auto &dependency : systemEquation->dependencies()) {
+                    if ((dependency->type() != AnalyserEquation::Type::ODE)
+                        && !isSomeConstant(dependency, includeComputedConstants)
+                        && (equationsForDependencies.empty()
+                            || isToBeComputedAgain(dependency)
+                            || (std::find(equationsForDependencies.begin(), equationsForDependencies.end(), dependency) != equationsForDependencies.end()))) {
+                        res += generateEquationCode(dependency, remainingEquations, equationsForDependencies, includeComputedConstants);
+                    }
                 }
             }
         }
